@@ -24,6 +24,9 @@ import (
 type c14Cfg struct {
 	Default time.Duration
 	NextUpd string // absent | past | +1h
+	// V2Gone: the histories start in another state - the second checker of the process has already been cleaned up
+	// (what a configuration reload leaves: new instance provisioned, old one cleaned up)
+	V2Gone bool
 }
 
 func (c c14Cfg) L() time.Duration {
@@ -249,6 +252,10 @@ func (k *c14Cast) run(cfg c14Cfg, hist []int) (key string, viols []c14Viol, trac
 			}
 			return false
 		}
+		if cfg.V2Gone {
+			v2alive = false
+			v[1].Chk.Cleanup()
+		}
 		for _, e := range hist {
 			if step(e) {
 				return
@@ -444,7 +451,11 @@ func RunC14(tier string, args []string) int {
 		maxStates = 4000000
 		deadline = time.Now().Add(60 * time.Minute)
 	}
-	cfgs := []c14Cfg{{0, "absent"}, {10 * time.Minute, "absent"}, {10 * time.Minute, "past"}, {0, "+1h"}, {10 * time.Minute, "+1h"}, {0, "past"}}
+	cfgs := []c14Cfg{{0, "absent", false}, {10 * time.Minute, "absent", false}, {10 * time.Minute, "past", false}, {0, "+1h", false}, {10 * time.Minute, "+1h", false}, {0, "past", false},
+		// a default duration longer than what the response allows: nextUpdate (+ skew) still ends the lifetime
+		{4 * time.Hour, "+1h", false},
+		// histories which start after the other checker of the process was cleaned up
+		{10 * time.Minute, "absent", true}}
 	total := fw.HStats{}
 	exhaustive := true
 	var samples []interface{}
@@ -475,7 +486,7 @@ func RunC14(tier string, args []string) int {
 		if st.Capped {
 			exhaustive = false
 		}
-		perCfg[fmt.Sprintf("default=%v,nextUpdate=%s", cfg.Default, cfg.NextUpd)] = st
+		perCfg[fmt.Sprintf("default=%v,nextUpdate=%s,otherCheckerCleanedUpFirst=%v", cfg.Default, cfg.NextUpd, cfg.V2Gone)] = st
 		fmt.Printf("  cfg default=%v nextUpdate=%s: states=%d transitions=%d depth=%d capped=%v\n", cfg.Default, cfg.NextUpd, st.States, st.Transitions, st.DepthDone, st.Capped)
 	}
 	samples = append(samples, map[string]interface{}{"config": "default=10m nextUpdate=absent", "history": []string{"lookup(c1,V1)", "advance(L/2)", "lookup(c1,V1)", "advance(L/2)", "flipA(c1->revoked)", "lookup(c1,V1)"}})
